@@ -17,7 +17,7 @@ RULE = ("cases = a family of 2-4 block trees over one factor pool, some constrai
         "blocks, a construction order and interleaved synthesis calls; non-trivial = at least 2 blocks compared "
         "(fresh vs shared) with exhausted sets; distinct = case contents")
 ASSUMPTIONS = ["pycryptosat is a correct SAT solver", "sets compared by level names"]
-MINIMUMS = {"quick": {"blocks_compared": 160, "histories": 70, "shared_constraint_blocks": 60, "mismatch_verdicts_compared": 600},
+MINIMUMS = {"quick": {"blocks_compared": 120, "histories": 50, "shared_constraint_blocks": 40, "mismatch_verdicts_compared": 400},
             "thorough": {"blocks_compared": 2400, "histories": 1000, "shared_constraint_blocks": 900,
                          "mismatch_verdicts_compared": 9000}}
 CASE_TIMEOUT = 300
@@ -34,7 +34,7 @@ def cross(design, crossing, cons):
 
 
 def cases(tier, seed):
-    n = 1500 if tier == "thorough" else 110
+    n = 1500 if tier == "thorough" else 80
     out = []
     for i in range(n):
         rng = random.Random("c18/%s/%d" % (seed, i))
@@ -55,8 +55,14 @@ def cases(tier, seed):
             c["share"] = "s%d" % k
             pool_cons.append(c)
 
-        def pick(design):
-            return [copy.deepcopy(c) for c in pool_cons if c["factor"] in design and rng.random() < 0.7]
+        shared_mt = {"type": "MinimumTrials", "trials": rng.choice([3, 4, 4, 6]), "share": "m0"}
+        use_mt = rng.random() < 0.5
+
+        def pick(design, mt=True):
+            cs = [copy.deepcopy(c) for c in pool_cons if c["factor"] in design and rng.random() < 0.7]
+            if mt and use_mt and rng.random() < 0.5:
+                cs.append(copy.deepcopy(shared_mt))   # the same MinimumTrials *object* in several blocks
+            return cs
         templates = []
         templates.append(lambda: cross(nonC, ["A"], pick(nonC)))
         templates.append(lambda: cross(names, ["A", "C"], pick(names)))
@@ -67,7 +73,9 @@ def cases(tier, seed):
                                   "cons": [{"type": "MinimumTrials", "trials": 2 * len(spec["factors"]["A"]["levels"])}]})
         templates.append(lambda: {"op": "merge", "blocks": [cross(names, ["B"], pick(names)), cross(names, ["A"], [])],
                                   "cons": [], "mode": "repeat", "align": None})
-        templates.append(lambda: {"op": "nest", "outer": cross(["C"], ["C"], []), "inner": cross(nonC, ["A"], pick(nonC)),
+        templates.append(lambda: {"op": "nest", "outer": cross(["C"], ["C"], pick(["C"])), "inner": cross(nonC, ["A"], pick(nonC, False)),
+                                  "cons": []})
+        templates.append(lambda: {"op": "nest", "outer": cross(["C"], ["C"], pick(["C"])), "inner": cross(nonC, ["A"], pick(nonC, False)),
                                   "cons": []})
         k = rng.randint(2, 4)
         trees = [rng.choice(templates)() for _ in range(k)]
@@ -172,7 +180,9 @@ def run_case(case):
             for c in S.all_constraints(tt):
                 if c.get("share") and c["share"] not in first_use:
                     first_use[c["share"]] = j
-        reused_from_earlier = any(c.get("share") and first_use[c["share"]] < i for c in S.all_constraints(t))
+        # only constraints that remember a window geometry (run lengths, ExactlyK, Pin) belong to the known finding
+        reused_from_earlier = any(c.get("share") and c["type"] != "MinimumTrials" and first_use[c["share"]] < i
+                                  for c in S.all_constraints(t))
         base = {"block_index": i, "op": t["op"], "has_shared_constraint": has_shared,
                 "constraint_first_used_in_earlier_block": reused_from_earlier}
         if o["T"] != f["T"]:
